@@ -14,7 +14,7 @@ import (
 type VerifNode struct {
 	Kind  string       // "leaf", "n4", "n16", "n48", "n256"
 	N     int          // recorded fan-out (childrenLen)
-	Real  int          // independently counted children (n48: non-zero index entries, n256: non-nil children; n4/n16: = N)
+	Real  int          // independently counted children (n48: non-zero index entries, or the occupied child slots where the two disagree; n256: non-nil children; n4/n16: = N)
 	PLen  int          // recorded compressed-path length (may exceed the inline limit)
 	Pfx   []byte       // raw inline compressed-path bytes (all maxPrefixLen of them)
 	Lanes []byte       // raw key lanes (n4: 4, n16: 16, incl. unoccupied ones); n48: slot numbers of the occupied index entries
@@ -84,6 +84,17 @@ func verifWalk[V any, L nodeLeaf[V]](ref nodeRef, val func(unsafe.Pointer) any) 
 					add(byte(i), nodeRef{})
 				}
 			}
+		}
+		// the child slots are a second, independent record of the fan-out: an occupied slot no index entry refers to
+		// (or the reverse) is reported through Real
+		occupied := 0
+		for i := range n48.children {
+			if n48.children[i].pointer != nil {
+				occupied++
+			}
+		}
+		if occupied != out.Real {
+			out.Real = occupied
 		}
 
 	case nodeKind256:
